@@ -124,7 +124,7 @@ class Table(object):
             return p
         if k == 'filter':
             return build_filter(r)
-        if k in ('ctrl_post', 'ctrl_pred'):
+        if k in ('ctrl_post', 'ctrl_pred', 'ctrl'):
             import pandas as pd
             mech = self.get(r['mech'])
             errs = [self.get(h) for h in r['errors']]
@@ -155,6 +155,8 @@ class Table(object):
                 return ctrl.get_predictive_model()
             ctrl.set_log_prior(zoo.build_prior(
                 {'n': ctrl.get_n_parameters(), 'kind': 'lognormal'}))
+            if k == 'ctrl':
+                return ctrl
             return ctrl.get_log_posterior(
                 individual=r.get('individual'))
         raise ValueError('unknown kind ' + k)
@@ -211,6 +213,7 @@ EVALS = {
     'filter': ['f_ll', 'f_s1'],
     'ctrl_post': ['call', 's1', 'init'],
     'ctrl_pred': ['sample', 'sample_df', 'regimen'],
+    'ctrl': ['c_call', 'c_s1', 'c_names'],
 }
 
 
@@ -295,6 +298,14 @@ def query(obj, kind, q, x, aux):
             return_df=(q == 'sample_df'), include_regimen=True, **kw)
     if q == 'regimen':
         return obj.get_dosing_regimen(aux['final_time'])
+    if q in ('c_call', 'c_s1', 'c_names'):
+        if q == 'c_names':
+            return [str(n) for n in obj.get_parameter_names()] + [
+                'n=%d' % obj.get_n_parameters()]
+        ids = list(obj._ids)
+        post = obj.get_log_posterior(
+            individual=str(ids[aux['ind'] % len(ids)]))
+        return post(x) if q == 'c_call' else post.evaluateS1(x)
     if q == 'names':
         return [str(n) for n in obj.get_parameter_names()] + [
             'n=%d' % obj.n_parameters()]
@@ -310,11 +321,12 @@ def aux_of(scenario, pidx):
     # same matrix for different points (a stale cache keyed on the covariates
     # would otherwise never be hit)
     out['cov'] = np.array(scenario['aux'][0]['cov'], dtype=float)
+    out['ind'] = pidx
     return out
 
 
 def tolerance(q):
-    if q in ('s1', 'p_s1', 'e_s1'):
+    if q in ('s1', 'p_s1', 'e_s1', 'c_s1'):
         return dict(rtol=1e-9, atol=1e-11, norm=True)
     return dict(rtol=1e-10, atol=1e-12)
 
@@ -401,7 +413,7 @@ def run(scenario, world):
             vec = points.get(h)
             vec = None if vec is None else free(h, vec[pidx % len(vec)])
             aux = aux_of(scenario, pidx)
-            if q in ('regimen', 'init', 'names'):
+            if q in ('regimen', 'init', 'names', 'c_names'):
                 x = None
             elif kind == 'filter':
                 x = np.array(vec, dtype=float)
@@ -438,7 +450,8 @@ def run(scenario, world):
                 ref = reference(h, q, pidx, vec, aux)
                 same = identical(ref, res) if q in (
                     'e_sample', 'p_sample', 'sample', 'sample_df', 'init',
-                    'regimen', 'names') else close(ref, res, **tolerance(q))
+                    'regimen', 'names', 'c_names') else close(
+                        ref, res, **tolerance(q))
                 if not same:
                     mism = 'values'
                     if is_exc(res) and not is_exc(ref):
@@ -825,6 +838,11 @@ def generate(rng, index, tier):
         recipes.append(cr)
         if rng.random() < 0.5:
             recipes.append(dict(cr, h='cpred', kind='ctrl_pred'))
+        if not cr.get('pop') and rng.random() < 0.7:
+            # the controller itself, asked for the posteriors of different
+            # individuals in any order (it sets each individual's regimen on
+            # one shared model right before copying it)
+            recipes.append(dict(cr, h='ctrl', kind='ctrl'))
     if 'redmech' in menu:
         recipes.append({'h': 'rm', 'kind': 'redmech', 'mech': 'm',
                         'fix': [[rng.randrange(n_mech),
@@ -851,7 +869,8 @@ def generate(rng, index, tier):
             # a composition chi refuses to build: leave it out
             recipes.remove(r)
             continue
-        n = obj.n_parameters()
+        n = obj.get_n_parameters() if r['kind'] == 'ctrl' \
+            else obj.n_parameters()
         points[r['h']] = [_vals(rng, n) for _ in range(3)]
     if fixed_ll and 'lp' in [r['h'] for r in recipes]:
         # the posterior is built on the fixed likelihood
